@@ -863,9 +863,20 @@ INT_EXTREMES = [-2147483648, 2147483647, -1, 0, 1, 127, 128, -128, -129, 255, 25
 FLT_SPECIAL = [0x00000000, 0x80000000, 0x00000001, 0x80000001, 0x7f7fffff, 0xff7fffff, 0x3f800000, 0xbf800000,
                0x3dcccccd, 0x00800000, 0x4b000000]      # finite values only (inf: see notes)
 
-def gen_incoming(rng, p):
-    """(tag, value) of a random parameter message for one element of p"""
+FLT_NONFINITE = [0x7f800000, 0xff800000]                   # +inf, -inf (a NaN compares unequal to itself: "the same state" is not defined for it)
+UNKNOWN_SYMS = [b"zzz", b"none", b"Sine"]                    # in no generated map (SYMS are lower case words)
+
+def gen_incoming(rng, p, exotic=0.0):
+    """(tag, value) of a random parameter message for one element of p.
+    exotic > 0 (C12 only): with that probability a float port is sent a non-finite value and a scalar option
+    port a symbol that is not in its map - legal messages whose states the savefile does not carry
+    (finding classes nonfinite-float / option-outside-range, notes/C12.md stage 6)"""
     ek = p.elem_kind()
+    if exotic and ek in ("f", "o") and rng.random() < exotic:
+        if ek == "f":
+            return ("f", rng.choice(FLT_NONFINITE))
+        if not p.is_array():
+            return ("S", rng.choice(UNKNOWN_SYMS))
     if ek == "c":
         return ("c", rng.choice([rng.randint(0, 127), rng.randint(0, 127), rng.randint(-128, 127), 0, 127, 39, 92, 10]))
     if ek == "i":
@@ -930,7 +941,7 @@ def mop_text(i, k, v):
         s = tag + hx(bytes(x))
     return "%d.%d.%s" % (i, k, s)
 
-def gen_ops(rng, ref, nops, bias_guards=True, focus=False):
+def gen_ops(rng, ref, nops, bias_guards=True, focus=False, exotic=0.0):
     """random parameter messages; returns (ops text, model ops text) and leaves ref in the reached state.
     focus: the first messages switch one guard (switch of a pointer sub-tree / 'enabled by' toggle) on and
     write two of the ports it governs, so that the saved file holds a dependency among its lines"""
@@ -972,7 +983,7 @@ def gen_ops(rng, ref, nops, bias_guards=True, focus=False):
             i = rng.randrange(len(flat))
         p = flat[i].leaf
         k = rng.randrange(p.n) if p.is_array() else 0
-        v = gen_incoming(rng, p)
+        v = gen_incoming(rng, p, exotic)
         if n_op < n_on and plan and v[0] in ("T", "F"):
             v = ("T", None)
         if flat[i].sel is None and i in sels and v[0] in ("i", "c") and rng.random() < 0.7:
